@@ -120,6 +120,10 @@ func (s *Server) Serve(req *http.Request, d time.Duration) Result {
 	ctx, cancel := context.WithTimeout(s.Base, d)
 	defer cancel()
 	req = req.WithContext(ctx)
+	// net/http's server never hands a handler a nil body
+	if req.Body == nil {
+		req.Body = http.NoBody
+	}
 	// an HTTP/1.0 client may send no Host header at all: a harness asks for that with the marker header
 	if req.Host == "" && req.Header.Get("X-Verif-No-Host") == "" {
 		req.Host = DNSName
